@@ -70,6 +70,8 @@ Lemma gtb_above b t : b < t -> Rltb b t = true.  Proof. intros. destruct (Rltb_s
 Lemma gtb_not_above b t : t < b -> Rltb b t = false.  Proof. intros. destruct (Rltb_spec b t); [lra|reflexivity]. Qed.
 Lemma geb_above b t : b < t -> Rleb b t = true.  Proof. intros. destruct (Rleb_spec b t); [reflexivity|lra]. Qed.
 Lemma geb_not_above b t : t < b -> Rleb b t = false.  Proof. intros. destruct (Rleb_spec b t); [lra|reflexivity]. Qed.
+Lemma leb_below b t : t < b -> Rleb t b = true.  Proof. intros. destruct (Rleb_spec t b); [reflexivity|lra]. Qed.
+Lemma leb_not_below b t : b < t -> Rleb t b = false.  Proof. intros. destruct (Rleb_spec t b); [lra|reflexivity]. Qed.
 
 Lemma cont_of_derivable f x : derivable_pt f x -> cont f x.
 Proof. intros H. apply cont_iff. apply derivable_continuous_pt. exact H. Qed.
@@ -90,7 +92,7 @@ Lemma cont_1m_sq_down a w x : cont (fun t => 1 - 2 * (((a - t) / w) * ((a - t) /
 Proof. apply cont_ext with (f := fun t => 1 - 2 * (((a - t) * / w) * ((a - t) * / w))); [intros; reflexivity|]. apply cont_of_derivable. reg. Qed.
 
 (* ---------------------------------------------------------------- the piecewise families *)
-Ltac below := (intros; first [apply ltb_below|apply ltb_not_below|apply gtb_above|apply gtb_not_above|apply geb_above|apply geb_not_above]; assumption).
+Ltac below := (intros; first [apply ltb_below|apply ltb_not_below|apply gtb_above|apply gtb_not_above|apply geb_above|apply geb_not_above|apply leb_below|apply leb_not_below]; assumption).
 
 Lemma up_piece_cont a w x : w <> 0 -> cont (fun t => if Rltb a t then (t - a) / w else 0) x.
 Proof.
@@ -146,25 +148,32 @@ Proof.
   - intros _. rcases; try lra; field; lra.
 Qed.
 
+(* the repaired order of tests: x <= a, x >= b, then the midpoint; three breakpoints a < (a+b)/2 < b *)
 Lemma s_cont a b x : a < b -> cont (fun t => mf_s RO t a b) x.
 Proof.
   intros Hab. unfold mf_s, rpow. unfold13.
-  apply cont_ext with (f := fun t => if Rltb ((a + b) / 2) t
-     then (if Rltb t b then 1 - 2 * (((b - t) / (b - a)) * ((b - t) / (b - a))) else 1)
-     else (if Rltb a t then 2 * (((t - a) / (b - a)) * ((t - a) / (b - a))) else 0)).
+  apply cont_ext with (f := fun t => if Rleb t a then 0 else if Rleb b t then 1 else if Rltb ((a + b) / 2) t
+     then 1 - 2 * (((b - t) / (b - a)) * ((b - t) / (b - a)))
+     else 2 * (((t - a) / (b - a)) * ((t - a) / (b - a)))).
   { intros t. rewrite !Rpow_2. reflexivity. }
-  apply (glue_above (fun t => Rltb ((a + b) / 2) t)
-           (fun t => if Rltb t b then 1 - 2 * (((b - t) / (b - a)) * ((b - t) / (b - a))) else 1)
-           (fun t => if Rltb a t then 2 * (((t - a) / (b - a)) * ((t - a) / (b - a))) else 0) ((a + b) / 2) x); try below.
-  - apply (glue (fun t => Rltb t b) (fun t => 1 - 2 * (((b - t) / (b - a)) * ((b - t) / (b - a)))) (fun _ => 1) b x); try below.
-    + apply cont_1m_sq_down.
+  apply (glue (fun t => Rleb t a) (fun _ => 0)
+           (fun t => if Rleb b t then 1 else if Rltb ((a + b) / 2) t
+              then 1 - 2 * (((b - t) / (b - a)) * ((b - t) / (b - a)))
+              else 2 * (((t - a) / (b - a)) * ((t - a) / (b - a)))) a x); try below.
+  - apply cont_const.
+  - apply (glue_above (fun t => Rleb b t) (fun _ => 1)
+             (fun t => if Rltb ((a + b) / 2) t
+                then 1 - 2 * (((b - t) / (b - a)) * ((b - t) / (b - a)))
+                else 2 * (((t - a) / (b - a)) * ((t - a) / (b - a)))) b x); try below.
     + apply cont_const.
-    + intros _. unfold Rdiv. ring.
-  - apply (glue_above (fun t => Rltb a t) (fun t => 2 * (((t - a) / (b - a)) * ((t - a) / (b - a)))) (fun _ => 0) a x); try below.
-    + apply cont_sq_up.
-    + apply cont_const.
-    + intros _. unfold Rdiv. ring.
-  - intros _. rcases; try lra; field; lra.
+    + apply (glue_above (fun t => Rltb ((a + b) / 2) t)
+               (fun t => 1 - 2 * (((b - t) / (b - a)) * ((b - t) / (b - a))))
+               (fun t => 2 * (((t - a) / (b - a)) * ((t - a) / (b - a)))) ((a + b) / 2) x); try below.
+      * apply cont_1m_sq_down.
+      * apply cont_sq_up.
+      * intros _. field. lra.
+    + intros _. rcases; try lra. unfold Rdiv. ring.
+  - intros _. rcases; try lra. unfold Rdiv. ring.
 Qed.
 Theorem s_continuous a b : a < b -> continuity (fun x => mf_s RO x a b).
 Proof. intros Hab x. apply cont_iff. apply s_cont. exact Hab. Qed.
@@ -172,22 +181,28 @@ Proof. intros Hab x. apply cont_iff. apply s_cont. exact Hab. Qed.
 Lemma z_cont a b x : a < b -> cont (fun t => mf_z RO t a b) x.
 Proof.
   intros Hab. unfold mf_z, rpow. unfold13.
-  apply cont_ext with (f := fun t => if Rltb t ((a + b) / 2)
-     then (if Rltb a t then 1 - 2 * (((t - a) / (b - a)) * ((t - a) / (b - a))) else 1)
-     else (if Rltb t b then 2 * (((b - t) / (b - a)) * ((b - t) / (b - a))) else 0)).
+  apply cont_ext with (f := fun t => if Rleb b t then 0 else if Rleb t a then 1 else if Rltb t ((a + b) / 2)
+     then 1 - 2 * (((t - a) / (b - a)) * ((t - a) / (b - a)))
+     else 2 * (((b - t) / (b - a)) * ((b - t) / (b - a)))).
   { intros t. rewrite !Rpow_2. reflexivity. }
-  apply (glue (fun t => Rltb t ((a + b) / 2))
-           (fun t => if Rltb a t then 1 - 2 * (((t - a) / (b - a)) * ((t - a) / (b - a))) else 1)
-           (fun t => if Rltb t b then 2 * (((b - t) / (b - a)) * ((b - t) / (b - a))) else 0) ((a + b) / 2) x); try below.
-  - apply (glue_above (fun t => Rltb a t) (fun t => 1 - 2 * (((t - a) / (b - a)) * ((t - a) / (b - a)))) (fun _ => 1) a x); try below.
-    + apply cont_1m_sq_up.
+  apply (glue_above (fun t => Rleb b t) (fun _ => 0)
+           (fun t => if Rleb t a then 1 else if Rltb t ((a + b) / 2)
+              then 1 - 2 * (((t - a) / (b - a)) * ((t - a) / (b - a)))
+              else 2 * (((b - t) / (b - a)) * ((b - t) / (b - a)))) b x); try below.
+  - apply cont_const.
+  - apply (glue (fun t => Rleb t a) (fun _ => 1)
+             (fun t => if Rltb t ((a + b) / 2)
+                then 1 - 2 * (((t - a) / (b - a)) * ((t - a) / (b - a)))
+                else 2 * (((b - t) / (b - a)) * ((b - t) / (b - a)))) a x); try below.
     + apply cont_const.
-    + intros _. unfold Rdiv. ring.
-  - apply (glue (fun t => Rltb t b) (fun t => 2 * (((b - t) / (b - a)) * ((b - t) / (b - a)))) (fun _ => 0) b x); try below.
-    + apply cont_sq_down.
-    + apply cont_const.
-    + intros _. unfold Rdiv. ring.
-  - intros _. rcases; try lra; field; lra.
+    + apply (glue (fun t => Rltb t ((a + b) / 2))
+               (fun t => 1 - 2 * (((t - a) / (b - a)) * ((t - a) / (b - a))))
+               (fun t => 2 * (((b - t) / (b - a)) * ((b - t) / (b - a)))) ((a + b) / 2) x); try below.
+      * apply cont_1m_sq_up.
+      * apply cont_sq_down.
+      * intros _. field. lra.
+    + intros _. rcases; try lra. unfold Rdiv. ring.
+  - intros _. rcases; try lra. unfold Rdiv. ring.
 Qed.
 Theorem z_continuous a b : a < b -> continuity (fun x => mf_z RO x a b).
 Proof. intros Hab x. apply cont_iff. apply z_cont. exact Hab. Qed.
